@@ -99,6 +99,7 @@ def needs : Op → List (Nat × Nat × Level)
   | .versions req sec => [(req, sec, .read)]
   | .rollback req sec _ => [(req, sec, .read), (req, sec, .write)]
   | .wrap req sec => [(req, sec, .read)]
+  | .probe req sec need _ => [(req, sec, need)]
   | .list .. | .batchGet .. | .batchSet .. => []      -- per returned entry, see `Backed`
   | .undelegate .. | .undelegateCascade .. | .addMember .. | .delMember .. | .addEdge .. | .unwrap .. | .reopen => []
 
@@ -170,6 +171,10 @@ theorem access_requires_grant_any_state_partial (s : State) (t : Nat) (op : Op)
       simp only [needs, List.mem_singleton] at hx; subst hx
       simp only [step] at hok; unfold State.wrap at hok
       exact guarded_justified hok hr
+    | probe req sec need me =>
+      simp only [needs, List.mem_singleton] at hx; subst hx
+      simp only [step] at hok; unfold State.probe at hok
+      exact guarded_justified hok hr
     | rollback req sec ver =>
       simp only [step] at hok; unfold State.rollback at hok
       simp only [needs, List.mem_cons, List.mem_nil_iff, or_false] at hx
@@ -226,15 +231,15 @@ example : (step (run (init) [(0, .set 0 1 7 3), (0, .grant 0 1 1 .write)]) 1 (.s
 /-- FULL.  For every configuration, every history of timed API calls (including raw graph edges of any kind,
     batch calls, old-version reads, rollbacks, wrapping, cascading revocation and re-opening the vault over its
     store), every time `t` and every operation: if the call succeeds then everything its answer rests on (`Backed`:
-    each level check with a non-root requester — read, old-version read, version count, wrap, overwrite, rotate,
-    rollback, delete, grant, grant-with-ttl, revoke, delegate — each name a non-root `list` returns, each value a
+    each level check with a non-root requester — read, old-version read, version count, wrap, transit
+    encrypt/decrypt, changelog, get/clear expiration, overwrite, rotate, rollback, delete, grant, grant-with-ttl, revoke, delegate — each name a non-root `list` returns, each value a
     non-root `batch_get` returns, each entry a non-root `batch_set` reports written) has a VAULT_ACCESS edge that
       * is in the graph the decision was taken on (= the graph before the call minus the grants the TTL tracker
         reports expired at `t`): unrevoked, its secret not deleted;
       * is UNEXPIRED at `t` (`LiveAt t`: the grant that created it was issued with no expiry or with one `> t`);
       * hangs off the requester or off a group reachable from it over fewer than `horizon` MEMBER hops;
       * after signature check, attenuation by distance and capacity gives at least the needed level.
-    Proof: history invariant `HI` (every edge issued with an expiry keeps its tracker entry through all 22
+    Proof: history invariant `HI` (every edge issued with an expiry keeps its tracker entry through all 23
     operations, and every tracker entry is in the persisted copy a re-opened vault loads) ⇒ after
     `cleanup_expired_grants` at `t` every remaining edge is live at `t`; every authorisation entry point of the
     repaired code runs that cleanup first. -/
@@ -474,6 +479,42 @@ theorem reopen_needs_persisted_tracker_witness :
     have h1 : TtlEntry.mk 1 1 5 ∈ ({ (run (init) [(0, .set 0 1 7 3), (0, .grantTtl 0 1 1 .read 5)]) with pttl := [] } : State).pttl :=
       hsub (TtlEntry.mk 1 1 5) (by decide)
     cases h1
+
+/-- FULL, every state: after a successful `revoke_delegation(parent, child)` the child holds no VAULT_ACCESS edge on
+    any of the secrets the call reports as revoked (whoever granted it), and the record is gone -/
+theorem revoke_delegation_immediate (s : State) (parent child : Nat) (names : List Nat)
+    (h : (s.undelegate parent child).2 = .names names) :
+    (∀ sec ∈ names, ∀ e ∈ (s.undelegate parent child).1.graph,
+        ¬ (e.src = entNode child ∧ e.dst = secNode sec ∧ e.kind.isAccess = true)) ∧
+    ∀ d ∈ (s.undelegate parent child).1.delegs, ¬ (d.parent = parent ∧ d.child = child) := by
+  unfold State.undelegate at h ⊢
+  split at h
+  · cases h
+  · rename_i d hfind
+    simp only [Resp.names.injEq] at h
+    subst h
+    simp only [foldl_audit_graph, persistTtl_graph, persistDelegs_graph]
+    refine ⟨fun sec hsec e he => ((mem_foldl_drop_graph child _ _).mp he).2 sec hsec, ?_⟩
+    have hdel : ∀ (l : List Nat) (x : State), (l.foldl (fun st sec => st.audit parent sec "revoke" [.ident child]) x).delegs = x.delegs := by
+      intro l; induction l with
+      | nil => intro x; rfl
+      | cons a l ih => intro x; rw [List.foldl_cons, ih]; rfl
+    have hdel2 : ∀ (x : State), x.persistDelegs.persistTtl.delegs = x.delegs := by
+      intro x; unfold State.persistTtl; split <;> rfl
+    have hdel3 : ∀ (l : List Nat) (x : State), (l.foldl (fun (st : State) sec =>
+        { st with graph := dropAccess st.graph child sec, ttl := ttlRemove st.ttl child sec }) x).delegs = x.delegs := by
+      intro l; induction l with
+      | nil => intro x; rfl
+      | cons a l ih => intro x; rw [List.foldl_cons, ih]
+    rw [hdel, hdel2, hdel3]
+    intro d' hd' hm
+    have := (List.mem_filter.mp hd').2
+    simp [hm.1, hm.2] at this
+
+example :
+    let s := run (init) [(0, .set 0 1 7 3), (0, .grant 0 1 1 .read), (0, .delegate 1 2 [1] .read none)]
+    (step s 1 (.get 2 1)).2 = .value 7 ∧ (step s 1 (.undelegate 1 2)).2 = .names [1] ∧
+    (step (step s 1 (.undelegate 1 2)).1 1 (.get 2 1)).2 = .err .denied := by decide
 
 /-- FULL, every state: `revoke_delegation_cascading(parent, child)` answers with records that existed, removes every
     VAULT_ACCESS edge those records' children held on the delegated secrets, includes the direct record when there
